@@ -282,60 +282,51 @@ func ruleR7Binary(c *Ctx, prop string) {
 		}
 		apply := oi.methods["Apply"]
 		site := c.pos(apply.Pos())
-		// the single success path: return of a library call (args: inputs[0], inputs[1], kernel, mode)
-		var call *ssa.Call
+		// every success path: return of a driver call (args: inputs[0], inputs[1], kernel, mode)
+		var calls []*ssa.Call
 		for _, b := range apply.Blocks {
 			for _, in := range b.Instrs {
 				if cl, ok := in.(*ssa.Call); ok {
 					if sc := cl.Common().StaticCallee(); sc != nil && isLibFn(sc) && len(cl.Common().Args) == 4 && funcValueOf(cl.Common().Args[2]) != nil {
-						call = cl
+						calls = append(calls, cl)
 					}
 				}
 			}
 		}
-		if call == nil {
+		if len(calls) == 0 {
 			c.undecided("R7", key, site, "Apply does not delegate to the shared binary-operation driver: unrecognised factoring")
 			continue
 		}
 		n++
-		args := call.Common().Args
-		driver = call.Common().StaticCallee()
 		bad := ""
-		switch {
-		case !sameInputLoad(args[0], apply.Params[1], 0) || !sameInputLoad(args[1], apply.Params[1], 1):
-			bad = "operands are not (inputs[0], inputs[1]) in that order"
-		default:
-			if k, ok := constInt(args[3]); !ok || k != c.constValue(pkgOps, "MultidirectionalBroadcasting") {
-				bad = "broadcast mode is not multidirectional: shapes that ONNX broadcasts both ways are refused or mis-broadcast"
+		var kernel *ssa.Function
+		for _, call := range calls {
+			if bad != "" {
+				break
 			}
+			var k *ssa.Function
+			bad, k = c.checkBinaryCall(name, apply, call)
+			if kernel == nil {
+				kernel = k
+			}
+			driver = call.Common().StaticCallee()
 		}
-		kernel := funcValueOf(args[2])
+		// every return hands out the results of one of those calls, or is an error return
 		if bad == "" {
-			if want, isArith := binaryKernels[name]; isArith {
-				got := c.kernelTerm(kernel)
-				if got != want {
-					bad = fmt.Sprintf("kernel %s computes %s, expected gorgonia %s", fname(kernel), got, want)
+			for _, r := range returnsOf(apply) {
+				if len(r.Results) != 2 || isNilConst(r.Results[0]) {
+					continue
 				}
-			} else {
-				// boolean: kernel calls the coordinate iterator helper with a closure; check the truth table
-				var closure *ssa.Function
-				okOrder := false
-				for _, b := range kernel.Blocks {
-					for _, in := range b.Instrs {
-						if cl, ok := in.(*ssa.Call); ok && len(cl.Common().Args) == 3 {
-							if f := funcValueOf(cl.Common().Args[2]); f != nil {
-								closure = f
-								okOrder = cl.Common().Args[0] == ssa.Value(kernel.Params[0]) && cl.Common().Args[1] == ssa.Value(kernel.Params[1])
-							}
+				fromCall := false
+				if ex, ok := r.Results[0].(*ssa.Extract); ok && ex.Index == 0 {
+					for _, call := range calls {
+						if ex.Tuple == ssa.Value(call) {
+							fromCall = true
 						}
 					}
 				}
-				if closure == nil {
-					bad = "boolean kernel does not apply an element closure"
-				} else if tt := truthTable(closure, 2); tt != boolTables[name] {
-					bad = fmt.Sprintf("element function has truth table %s (inputs 00,01,10,11), %s requires %s", tt, name, boolTables[name])
-				} else if !okOrder {
-					bad = "operands swapped on the way to the element loop"
+				if !fromCall {
+					bad = "a success return of Apply is not the result of the shared driver applied to (inputs[0], inputs[1]) with the ONNX kernel: " + c.term(r.Results[0], 0)
 				}
 			}
 		}
@@ -349,6 +340,52 @@ func ruleR7Binary(c *Ctx, prop string) {
 		c.checkBinaryDriver(driver)
 	}
 	c.checkBooleanLoop()
+}
+
+// checkBinaryCall judges one call of the binary driver in an operator's Apply.
+func (c *Ctx) checkBinaryCall(name string, apply *ssa.Function, call *ssa.Call) (string, *ssa.Function) {
+	args := call.Common().Args
+	bad := ""
+	switch {
+	case !sameInputLoad(args[0], apply.Params[1], 0) || !sameInputLoad(args[1], apply.Params[1], 1):
+		bad = "operands are not (inputs[0], inputs[1]) in that order"
+	default:
+		if k, ok := constInt(args[3]); !ok || k != c.constValue(pkgOps, "MultidirectionalBroadcasting") {
+			bad = "broadcast mode is not multidirectional: shapes that ONNX broadcasts both ways are refused or mis-broadcast"
+		}
+	}
+	kernel := funcValueOf(args[2])
+	if bad != "" {
+		return bad, kernel
+	}
+		if want, isArith := binaryKernels[name]; isArith {
+			got := c.kernelTerm(kernel)
+			if got != want {
+				bad = fmt.Sprintf("kernel %s computes %s, expected gorgonia %s", fname(kernel), got, want)
+			}
+		} else {
+			// boolean: kernel calls the coordinate iterator helper with a closure; check the truth table
+			var closure *ssa.Function
+			okOrder := false
+			for _, b := range kernel.Blocks {
+				for _, in := range b.Instrs {
+					if cl, ok := in.(*ssa.Call); ok && len(cl.Common().Args) == 3 {
+						if f := funcValueOf(cl.Common().Args[2]); f != nil {
+							closure = f
+							okOrder = cl.Common().Args[0] == ssa.Value(kernel.Params[0]) && cl.Common().Args[1] == ssa.Value(kernel.Params[1])
+						}
+					}
+				}
+			}
+			if closure == nil {
+				bad = "boolean kernel does not apply an element closure"
+			} else if tt := truthTable(closure, 2); tt != boolTables[name] {
+				bad = fmt.Sprintf("element function has truth table %s (inputs 00,01,10,11), %s requires %s", tt, name, boolTables[name])
+			} else if !okOrder {
+				bad = "operands swapped on the way to the element loop"
+			}
+		}
+	return bad, kernel
 }
 
 func (c *Ctx) constValue(pkg, name string) int64 {
@@ -784,6 +821,20 @@ func (c *Ctx) checkPRelu(oi *opInfo, key string) {
 			continue
 		}
 		nK++
+		// every call of this instance in Apply is fed Data() of the two broadcast results, in order
+		for _, bb := range apply.Blocks {
+			for _, in := range bb.Instrs {
+				cl, ok := in.(*ssa.Call)
+				if !ok || cl.Common().StaticCallee() != f || len(cl.Common().Args) != 2 || bad != "" {
+					continue
+				}
+				t0, t1 := c.term(cl.Common().Args[0], 0), c.term(cl.Common().Args[1], 0)
+				if t0 != "Data(UnidirectionalBroadcast(P1[0],P1[1]))" || t1 != "Data(UnidirectionalBroadcast(P1[0],P1[1])#1)" {
+					bad = fmt.Sprintf("the element kernel is not (always) fed the unidirectionally broadcast operands: it receives (%s, %s); a slope that is not materialised to the input's shape is indexed by position, not by axis", t0, t1)
+					site = c.pos(cl.Pos())
+				}
+			}
+		}
 		if w := c.preluKernelShape(f); w != "" && bad == "" {
 			bad = w
 			site = c.pos(f.Pos())
@@ -817,6 +868,14 @@ func (c *Ctx) preluKernelShape(f *ssa.Function) string {
 			okKeep, okMul := false, false
 			for _, e := range phi.Edges {
 				if m, isMul := e.(*ssa.BinOp); isMul && m.Op == token.MUL {
+					// both factors are read at the element's own position (the index the result is stored at)
+					for _, fct := range []ssa.Value{m.X, m.Y} {
+						if ld, isLd := fct.(*ssa.UnOp); isLd {
+							if fia, isIA := ld.X.(*ssa.IndexAddr); isIA && fia.Index != ia.Index {
+								return "a factor of slope*x is read at an index other than the element's own position (slope applied cyclically or shifted instead of per broadcast element)"
+							}
+						}
+					}
 					// guarded by v < 0 where v is the other edge value
 					for _, g := range guardsOf(m.Block()) {
 						for _, a := range atomsOf(g) {
